@@ -1,7 +1,7 @@
 (* C14 — State iterator yields the notification stream and then ends.
    Statements only; proofs in WorldSubs.v (an iterator is a subscription channel of capacity 1
    with the blocking policy whose consumer is the thread calling next()). *)
-From RS Require Import Base Channel ChannelProofs Pipeline Script World Hist WorldProofs WorldInv WorldQueue WorldStop WorldSubs.
+From RS Require Import Base Channel ChannelProofs Pipeline Script World Hist WorldProofs WorldInv WorldQueue WorldStop WorldSubs WorldSids WorldForward.
 
 Section C14.
 Context {State : Type}.
@@ -28,10 +28,24 @@ Theorem C14_none_forever : forall (w : world (State := State)) t r sid l,
     Some (emit (set_thread w t (TClient r l PIdle)) (ERet t (CNext sid) (RItem None))).
 Proof. intros w t r sid l D. unfold invoke. rewrite D. split; reflexivity. Qed.
 
-(* C14_partial: that everything forwarded to the iterator is the notification of every notifying
-   action since its creation, and the end of the stream after stop(), are decided by engine L
-   and the C14 monitor. Releasing an iterator early is the known finding F5 (see C13). *)
+(* every notification since the iterator was created reaches it (WorldForward.v; programs whose
+   registration calls carry pairwise distinct identifiers, every schedule): as long as the
+   iterator's channel (BlockOnFull: iter() uses it) has not been released, one entry per snapshot
+   that contains the iterator, in snapshot order (`fowed`: the snapshots are the notifying
+   actions, C03_snapshots), is exactly what next() has yielded so far, followed by what is still
+   queued, followed by what the notification in progress has still to forward - no gap, no repeat,
+   nothing else *)
+Theorem C14_every_notification : forall reducers mws progs w sid c pc, distinct_regs progs ->
+  reachable cfg reducers mws progs w ->
+  get_chan (w_chans w) sid = Some c -> pol c = Block -> tx_alive c = true ->
+  get_thread (w_threads w) reducer_tid = Some (TReducer pc) ->
+  rev (fowed sid (w_hist w)) = rev (subrecvs sid (w_hist w)) ++ qacts c ++ pendingf sid pc.
+Proof. intros. eapply consumed_is_owed; eauto. Qed.
+
+(* C14_partial: the end of the stream after stop() (remaining pairs, then None) is decided by
+   engine L and the C14 monitor. Releasing an iterator early is the known finding F5 (see C13). *)
 End C14.
 
 Print Assumptions C14_stream.
 Print Assumptions C14_none_forever.
+Print Assumptions C14_every_notification.
